@@ -68,14 +68,28 @@ def cur():
 # --------------------------------------------------------------------------------------
 class Priv:
     """process-private state that is global in CPython and therefore swapped at every context switch"""
-    __slots__ = ('np_state', 'py_state', 'cwd', 'argv', 'extra')
+    __slots__ = ('np_state', 'py_state', 'cwd', 'argv', 'extra', 'modg')
 
-    def __init__(self, np_state, py_state, cwd, argv, extra=None):
+    def __init__(self, np_state, py_state, cwd, argv, extra=None, modg=None):
         self.np_state, self.py_state, self.cwd, self.argv = np_state, py_state, cwd, argv
         self.extra = dict(extra or {})
+        self.modg = modg          # {module name: {global name: value}} for the virtualised modules, None = not captured yet
 
     def fork(self):
-        return Priv(self.np_state, self.py_state, self.cwd, list(self.argv), self.extra)
+        import copy
+        modg = None
+        if self.modg is not None:
+            # fork copies the address space: the child gets its own copy of every module-level variable
+            modg = {}
+            for mn, d in self.modg.items():
+                nd = {}
+                for n, v in d.items():
+                    try:
+                        nd[n] = copy.deepcopy(v)
+                    except Exception:  # noqa: BLE001  (uncopyable: shared, like an inherited OS-level resource)
+                        nd[n] = v
+                modg[mn] = nd
+        return Priv(self.np_state, self.py_state, self.cwd, list(self.argv), self.extra, modg)
 
 
 class Proc:
@@ -142,6 +156,7 @@ class Kernel:
         self.seam_hook = None       # callable(kind, detail): may raise an injected fault
         self.task_counter = 0       # pool task ids are unique across all pools of a run
         self.rng_finder = None      # callable() -> generator objects in module globals (re-scanned at every fork)
+        self.virtual_modules = []   # modules whose module-level variables are per simulated process (swapped at every switch)
         self.armed = None
 
     # ---- logging (never draws a choice, never reads a real clock) -------------------
@@ -329,6 +344,8 @@ class Kernel:
         v.argv = sys.argv
         for o in self.rng_objects:
             v.extra[id(o)] = _get_rng_state(o)
+        if self.virtual_modules:
+            v.modg = {m.__name__: {n: x for n, x in vars(m).items() if _is_process_state(n, x)} for m in self.virtual_modules}
 
     def _restore_private(self, q):
         import numpy as np
@@ -344,6 +361,15 @@ class Kernel:
             st = v.extra.get(id(o))
             if st is not None:
                 _set_rng_state(o, st)
+        if self.virtual_modules and v.modg is not None:
+            for m in self.virtual_modules:
+                want = v.modg.get(m.__name__)
+                if want is None:
+                    continue
+                d = vars(m)
+                for n in [n for n, x in d.items() if _is_process_state(n, x) and n not in want]:
+                    del d[n]                      # a variable another process created after the fork
+                d.update(want)
 
     def delay(self, p, kind):
         cfg = self.cfg
@@ -468,6 +494,14 @@ def make_sandbox(tag, seed):
             return d
         except FileExistsError:
             k += 1
+
+
+def _is_process_state(name, value):
+    """module-level variables that make up a process's state: everything except code objects, modules and dunders"""
+    import types
+    if name.startswith('__') and name.endswith('__'):
+        return False
+    return not isinstance(value, (types.FunctionType, types.BuiltinFunctionType, types.ModuleType, type, types.MethodType))
 
 
 def _get_rng_state(o):
